@@ -56,6 +56,8 @@ def value_term(rnd, nvars=3, p_var=0.12):
     if r < 0.75:
         return [Sym('a'), rnd.choice(['a', 'b', 'c'])]
     if r < 0.85:
+        if rnd.random() < 0.2:
+            return [Sym('a'), '$py:None']        # a Python value used as a constant
         return [Sym('i'), rnd.randrange(2)]
     return [Sym('f'), 'f', value_term(rnd, nvars, p_var)]
 
@@ -272,15 +274,36 @@ def c14_program(rnd):
     clauses.append(('aba2', [('V', 'X')], ('conj', ('call', 'retract', [('F', 'd', [('V', 'X')])]),
                                            ('conj', ('call', 'once', [('F', 'retract', [('F', 'd', [('V', 'Y')])])]),
                                             ('call', 'asserta', [('F', 'd', [('V', 'Y')])]))), True))
+    # a suspended retract while the facts *in front of* the place it has reached are removed
+    clauses.append(('rab', [], ('conj', ('call', 'retract', [('F', 'd', [('A', 'a')])]), ('conj', ('call', 'retractall', [('F', 'd', [('A', 'b')])]), 'fail')), True))
+    clauses.append(('rab', [], 'tru'))
+    clauses.append(('rab2', [('V', 'X')], ('conj', ('call', 'retract', [('F', 'd', [('F', 'k', [('V', 'X')])])]),
+                                          ('call', 'retractall', [('F', 'd', [('A', 'b')])])), True))
     return clauses
 
 
 def c14_history(rnd):
     prog = c14_program(rnd)
     ops = [('load', 'overwrite', prog)]
+    if rnd.random() < 0.25:
+        for x in rnd.choice([['b', 'a', 'b', 'a'], ['b', 'b', 'a', 'c', 'a'], ['b', 'a', 'a']]):
+            ops.append(('assert', 'd', 'z', [[Sym('a'), x]]))
+        ops.append(('query', 'rab', ('all',), []))
+        ops.append(('query', 'd', ('all',), [v(10)]))
+        for x in ['b', 'k1', 'b', 'k2', 'k3']:
+            ops.append(('assert', 'd', 'z', [[Sym('a'), 'b'] if x == 'b' else [Sym('f'), 'k', [Sym('a'), x]]]))
+        ops.append(('query', 'rab2', rnd.choice([('all',), ('stop', 2)]), [v(0)]))
+        ops.append(('query', 'd', ('all',), [v(10)]))
     for pred in ('d', 'e'):
         for _ in range(rnd.randint(0, 3)):
             ops.append(('assert', pred, 'z', [[Sym('a'), rnd.choice(['a', 'b', 'c'])]]))
+    if rnd.random() < 0.3:
+        # a query object made before the store changes and enumerated afterwards
+        inner = rnd.choice([('assert', 'd', rnd.choice(['a', 'z']), [[Sym('a'), 'late']]),
+                            ('query', 'retract', ('all',), [[Sym('f'), 'd', v(5)]]),
+                            ('query', 'retractall', ('all',), [[Sym('f'), 'd', v(5)]]),
+                            ('assert', 'fresh', 'z', [[Sym('a'), 'only']])])
+        ops.append(('prebuilt', rnd.choice(['d', 'd', 'fresh']), [v(0)], inner))
     tn = sorted({c[0] for c in prog if c[0].startswith('t')})
     rb = [('query', 'd', ('all',), [v(10)]), ('query', 'e', ('all',), [v(10)]), ('query', 'seen', ('all',), [v(10)])]
     for _ in range(rnd.randint(2, 5)):
